@@ -18,4 +18,24 @@ def chanOK (ch : Channel) (ty : TokenType) : Bool :=
   else if ty == .COLON || ty == .LPAREN || ty == .RPAREN then ch == .DEFAULT || ch == .HIDDEN
   else ch == .DEFAULT
 
+/-! ## the payload-kind table
+
+Which kind of payload a token type carries: a string payload only on the string families (quoted literals,
+string-expression text / end, `MacroString`), an integer only on `IntegerLiteral` and `MacroVarResolve`, a float only on
+the two float literal types — and those four numeric types never come without their number. -/
+
+def isStrTy (ty : TokenType) : Bool :=
+  ty == .StringLiteral || ty == .BitTestingLiteral || ty == .DateLiteral || ty == .DateTimeLiteral
+  || ty == .NameLiteral || ty == .TimeLiteral || ty == .HexStringLiteral
+  || ty == .StringExprText || ty == .StringExprEnd || ty == .MacroString
+
+def isIntTy (ty : TokenType) : Bool := ty == .IntegerLiteral || ty == .MacroVarResolve
+def isFloatTy (ty : TokenType) : Bool := ty == .FloatLiteral || ty == .FloatExponentLiteral
+
+def payKindOK (ty : TokenType) : Payload → Bool
+  | .str _ _ => isStrTy ty
+  | .int _ => isIntTy ty
+  | .float _ => isFloatTy ty
+  | .none => !(isIntTy ty || isFloatTy ty)
+
 end SasLexer
